@@ -109,6 +109,9 @@ func main() {
 		ops := make([]ledgerops.AbsOp, 0, *length)
 		for j := 0; j < *length; j++ {
 			o := ledgerops.AbsOp{Op: kinds[rng.Intn(len(kinds))], A: 1 + rng.Intn(3), B: 1 + rng.Intn(3), V: rng.Intn(3)}
+			if o.Op == "Transfer" {
+				o.V = rng.Intn(5)
+			}
 			if o.Op == "CallExplicit" {
 				o.V = rng.Intn(54)
 			}
